@@ -107,7 +107,8 @@ Record CInv (c : client) : Prop := mkCInv {
   ci_name : c_name c = name;
   ci_height : 1 <= c_height c <= 30;
   ci_head : head_ok (c_latest_msg c) (c_latest c);
-  ci_records : forall f d, In (f, ROk d) (c_records c) -> auth_record d
+  ci_records : forall f d, In (f, ROk d) (c_records c) -> auth_record d;
+  ci_nofuel : forall f, ~ In (f, RErr EFuelC) (c_records c)
 }.
 
 Lemma head_ok_range msg t : head_ok msg t -> 0 <= Codec.tN t < 2 ^ 62.
@@ -120,11 +121,12 @@ Proof. intros [[-> _]|H]; [left; reflexivity | right; eauto]. Qed.
 
 Lemma tframe_cinv s s' : tframe s s' -> CInv (s_c s) -> CInv (s_c s').
 Proof.
-  intros F [H1 H2 H3 H4 H5]. constructor.
+  intros F [H1 H2 H3 H4 H5 H6]. constructor.
   - rewrite (tf_vs _ _ F); auto.
   - rewrite (tf_name _ _ F); auto.
   - rewrite (tf_height _ _ F); auto.
   - rewrite (tf_msg _ _ F), (tf_latest _ _ F); auto.
+  - rewrite (tf_records _ _ F); auto.
   - rewrite (tf_records _ _ F); auto.
 Qed.
 
@@ -521,13 +523,15 @@ Proof.
         intros Hr. eapply has_sec_l; [exact T2 | apply Hsec3; exact Hr].
       * intros Hlen. apply Hfuel.
         (* the failed compare-and-swap consumed an interference *)
-        destruct C1 as [Ccfg Cint]. rewrite Hint, Cint, (tf_interf _ _ F0).
+        assert (Ei : w_interf (s_w s1) = w_interf (s_w s)).
+        { destruct C1 as [_ Ci]. rewrite Ci. apply (tf_interf _ _ F0). }
+        assert (Ec : w_config (s_w s1) = w_config (s_w s)).
+        { destruct C1 as [Cc _]. rewrite Cc. apply (tf_config _ _ F0). }
+        assert (En : c_name (s_c s1) = c_name (s_c s)) by apply (mf_name _ _ Fm).
+        rewrite Hint, Ei.
         destruct (Hfail eq_refl) as (x & rr & [Hi|[Hne Hold]]).
-        -- rewrite (tf_interf _ _ F0) in *. rewrite Cint in Hi. rewrite (tf_interf _ _ F0) in Hi.
-           rewrite Hi in *. cbn in *. lia.
-        -- exfalso. rewrite Ccfg, (tf_config _ _ F0) in Hne.
-           rewrite (tf_name _ _ F1) in Hne. rewrite (tf_name _ _ F0) in Hne.
-           apply Hne. symmetry. exact Hcfg.
+        -- rewrite Ei in Hi. rewrite Hi in *. cbn in *. lia.
+        -- exfalso. rewrite Ec, En in Hne. apply Hne. symmetry. exact Hcfg.
 Qed.
 
 Lemma merge_latest_spec msg s r s' :
@@ -551,6 +555,352 @@ Proof.
   split; [exact HI2|]. split; [eapply mframe_trans; eauto|].
   split; [eapply textend_trans; [apply textend_nocfg_safe; exact T1 | exact T2]|].
   intros Hs. eapply has_sec_l; [exact T1 | apply Hsec2; exact Hs].
+Qed.
+
+(* ---- checkRecord ------------------------------------------------------------------------------------ *)
+
+Lemma sum_shifts_pos_pos p : 0 < sum_shifts_pos p.
+Proof. induction p; cbn [sum_shifts_pos]; lia. Qed.
+
+Lemma stored_hash_index_0_nonneg id : 0 <= stored_hash_index 0 id.
+Proof.
+  unfold stored_hash_index, level_up. cbn [Z.iter]. rewrite Z.add_0_r.
+  destruct id; cbn [sum_shifts]; try lia. pose proof (sum_shifts_pos_pos p). lia.
+Qed.
+
+Lemma make_plan_empty_tree h x : 0 <= x -> make_plan 0 h [x] = TErr TENotInTree.
+Proof.
+  intros Hx. unfold make_plan. cbn.
+  assert (H0 : (0 <=? x) = true) by (apply Z.leb_le; exact Hx).
+  unfold stored_hash_index, level_up, sum_shifts. cbn. rewrite H0. reflexivity.
+Qed.
+
+Lemma tile_read_hashes_st_empty tr x s r s' :
+  Codec.tN tr = 0 -> 0 <= x ->
+  tile_read_hashes_st node_hash tr [x] s = (r, s') -> s' = s /\ forall hs, r <> TOk hs.
+Proof.
+  intros H0 Hx H. unfold tile_read_hashes_st in H. minv H.
+  unfold get_client in E. inversion E; subst a s0; clear E.
+  destruct (_ || _).
+  - apply ret_inv in H as [-> ->]. split; [reflexivity | discriminate].
+  - rewrite H0, (make_plan_empty_tree _ _ Hx) in H.
+    apply ret_inv in H as [-> ->]. split; [reflexivity | discriminate].
+Qed.
+
+Lemma check_record_st_spec id text s r s' :
+  CInv (s_c s) ->
+  check_record_st leaf_hash node_hash id text s = (r, s') ->
+  tframe s s' /\ textend ev_quiet s s' /\
+  (r = None -> exists tmsg, signed_tree tmsg (c_latest (s_c s)) /\ id < Codec.tN (c_latest (s_c s)) /\
+               node_auth NodeAt (Codec.tH (c_latest (s_c s))) (Codec.tN (c_latest (s_c s)))
+                         (stored_hash_index 0 id) (leaf_hash text)) /\
+  (forall e, r = Some e -> e <> ESecurity /\ e <> EFuelC).
+Proof.
+  intros HI H. unfold check_record_st in H.
+  minv H. unfold get_client in E. inversion E; subst a s0; clear E.
+  destruct (Codec.tN (c_latest (s_c s)) <=? id) eqn:Hle.
+  { apply ret_inv in H as [-> ->]. split; [apply tframe_refl|]. split; [apply textend_refl|].
+    split; [discriminate|]. intros e [= <-]. split; discriminate. }
+  apply Z.leb_gt in Hle. minv H.
+  destruct (ci_head _ HI) as [[_ H0]|Hs].
+  - (* the empty, unsigned timeline: nothing is read *)
+    apply tile_read_hashes_st_empty in E as [-> Hno]; [|exact H0|apply stored_hash_index_0_nonneg].
+    assert (s' = s /\ exists e, r = Some e /\ e <> ESecurity /\ e <> EFuelC) as [-> (e & -> & He)].
+    { destruct a as [[|h l]|k|]; try (exfalso; eapply Hno; reflexivity);
+        apply ret_inv in H as [-> ->]; (split; [reflexivity|]); eexists; (split; [reflexivity|]); split; discriminate. }
+    split; [apply tframe_refl|]. split; [apply textend_refl|]. split; [discriminate|].
+    intros e' [= <-]. exact He.
+  - assert (Hr := signed_range _ _ Hs).
+    eapply tile_read_hashes_st_spec in E as (F & T & Hauth); eauto; [|apply (ci_height _ HI)].
+    assert (Tq : textend ev_quiet s s0).
+    { eapply textend_impl; [|exact T]. rewrite (ci_name _ HI). intros e. eapply tile_ev_quiet; eauto. }
+    assert (Hfin : s' = s0 /\
+                   (r = None -> exists h l, a = TOk (h :: l) /\ str_eqb h (leaf_hash text) = true) /\
+                   (forall e, r = Some e -> e <> ESecurity /\ e <> EFuelC)).
+    { destruct a as [[|h l]|k|]; try (apply ret_inv in H as [-> ->]; split; [reflexivity|];
+                                       split; [discriminate|]; intros e [= <-]; split; discriminate).
+      destruct (str_eqb h (leaf_hash text)) eqn:Heq; apply ret_inv in H as [-> ->].
+      - split; [reflexivity|]. split; [intros _; exists h, l; auto | intros e [=]].
+      - split; [reflexivity|]. split; [discriminate | intros e [= <-]; split; discriminate]. }
+    destruct Hfin as (-> & Hnone & Herrs).
+    split; [exact F|]. split; [exact Tq|]. split; [|exact Herrs].
+    intros Hr0. destruct (Hnone Hr0) as (h & l & -> & Heq). apply str_eqb_eq in Heq. subst h.
+    exists (c_latest_msg (s_c s)). split; [exact Hs|]. split; [exact Hle|].
+    specialize (Hauth _ eq_refl). inversion Hauth; subst. assumption.
+Qed.
+
+(* ---- the body of Lookup ------------------------------------------------------------------------------ *)
+
+Lemma tl_quiet s s' : tl s s' -> tframe s s' /\ textend ev_quiet s s'.
+Proof.
+  intros [F T]. split; [exact F|]. eapply textend_impl; [|exact T].
+  intros e He. destruct e; cbn in He; try contradiction; (split; [split; exact I | intros []]).
+Qed.
+
+Lemma record_work_spec file rp s r s' :
+  CInv (s_c s) -> is_lookup_file file ->
+  record_work leaf_hash node_hash V file rp s = (r, s') ->
+  CInv (s_c s') /\ mframe s s' /\ textend ev_safe s s' /\
+  (forall d, r = ROk d -> auth_record d) /\
+  (r = RErr ESecurity -> has_sec s s') /\ r <> RErr EFuelC.
+Proof.
+  intros HI Hfile H. unfold record_work in H.
+  minva H d sa Ea. apply read_cache_spec in Ea. apply tl_quiet in Ea as [F0 T0].
+  assert (HI0 := tframe_cinv _ _ F0 HI).
+  minva H dw sb Eb.
+  assert (Hrd : CInv (s_c sb) /\ mframe s sb /\ textend ev_safe s sb).
+  { destruct d as [data|].
+    - apply ret_inv in Eb as [_ ->]. split; [exact HI0|]. split; [apply tframe_mframe; exact F0|].
+      apply textend_quiet_safe; exact T0.
+    - minva Eb rr sr Er. apply read_remote_spec in Er. apply tl_quiet in Er as [F1 T1].
+      assert (sb = sr) by (destruct rr; apply ret_inv in Eb as [_ ->]; reflexivity). subst sr.
+      split; [eapply tframe_cinv; eauto|]. split; [apply tframe_mframe; eapply tframe_trans; eauto|].
+      apply textend_quiet_safe. eapply textend_trans; eauto. }
+  destruct Hrd as (HI1 & Fm1 & Tm1). clear Eb.
+  assert (Hstop : forall e, e <> ESecurity -> e <> EFuelC -> (RErr e, sb) = (r, s') ->
+            CInv (s_c s') /\ mframe s s' /\ textend ev_safe s s' /\
+            (forall d, r = ROk d -> auth_record d) /\ (r = RErr ESecurity -> has_sec s s') /\ r <> RErr EFuelC).
+  { intros e H1 H2 [= <- <-]. split; [exact HI1|]. split; [exact Fm1|]. split; [exact Tm1|].
+    split; [discriminate|]. split; congruence. }
+  destruct dw as [[data write]|].
+  2: { apply ret_inv in H as [-> ->]. eapply Hstop; [| |reflexivity]; discriminate. }
+  destruct (parse_record data) as [[[id text] tree_msg]|k|] eqn:Hparse.
+  2,3: apply ret_inv in H as [-> ->]; eapply Hstop; [| |reflexivity]; discriminate.
+  minva H e1 sc Ec. apply merge_latest_spec in Ec as ((HI2 & F2 & T2 & Hsec2) & Hnf2); [|exact HI1].
+  assert (Fm2 : mframe s sc) by (eapply mframe_trans; [exact Fm1 | exact F2]).
+  assert (Tm2 : textend ev_safe s sc) by (eapply textend_trans; [exact Tm1 | exact T2]).
+  destruct e1 as [err|].
+  { apply ret_inv in H as [-> ->]. split; [exact HI2|]. split; [exact Fm2|]. split; [exact Tm2|].
+    split; [discriminate|]. split.
+    - intros [= ->]. eapply has_sec_l; [exact Tm1 | apply Hsec2; reflexivity].
+    - intros [= ->]. apply Hnf2. reflexivity. }
+  minva H e2 sd Ed. apply check_record_st_spec in Ed as (F3 & T3 & Hnone & Herrs); [|exact HI2].
+  assert (HI3 := tframe_cinv _ _ F3 HI2).
+  assert (Fm3 : mframe s sd) by (eapply mframe_trans; [exact Fm2 | apply tframe_mframe; exact F3]).
+  assert (Tm3 : textend ev_safe s sd) by (eapply textend_trans; [exact Tm2 | apply textend_quiet_safe; exact T3]).
+  destruct e2 as [err|].
+  { apply ret_inv in H as [-> ->]. destruct (Herrs _ eq_refl) as [Hs1 Hs2].
+    split; [exact HI3|]. split; [exact Fm3|]. split; [exact Tm3|].
+    split; [discriminate|]. split; congruence. }
+  destruct (Hnone eq_refl) as (tmsg & Hsig & Hlt & Hauth).
+  assert (Hrec : auth_record data).
+  { exists id, text, tree_msg, tmsg, (c_latest (s_c sc)). auto. }
+  minva H u se Ee. apply ret_inv in H as [-> ->].
+  assert (Hw : CInv (s_c se) /\ mframe s se /\ textend ev_safe s se).
+  { destruct write.
+    - apply write_cache_spec in Ee as [F4 T4].
+      split; [eapply tframe_cinv; eauto|].
+      split; [eapply mframe_trans; [exact Fm3 | apply tframe_mframe; exact F4]|].
+      eapply textend_trans; [exact Tm3|]. eapply textend_one; [exact T4|]. cbn. right. auto.
+    - apply ret_inv in Ee as [_ ->]. auto. }
+  destruct Hw as (HI4 & Fm4 & Tm4).
+  split; [exact HI4|]. split; [exact Fm4|]. split; [exact Tm4|].
+  split; [intros d0 [= <-]; exact Hrec|]. split; discriminate.
+Qed.
+
+(* ---- memoisation, initialisation, Lookup ------------------------------------------------------------- *)
+
+Lemma rec_find_in f l r : rec_find f l = Some r -> In (f, r) l.
+Proof.
+  induction l as [|[k v] l IH]; cbn; [discriminate|].
+  destruct (str_eqb f k) eqn:E.
+  - intros [= ->]. apply str_eqb_eq in E. subst. left. reflexivity.
+  - intros H. right. auto.
+Qed.
+
+(* what a lookup never changes once the client is initialised *)
+Record lframe (s s' : state) : Prop := mkLframe {
+  lf_init : c_init (s_c s') = c_init (s_c s);
+  lf_name : c_name (s_c s') = c_name (s_c s);
+  lf_vs : c_verifiers (s_c s') = c_verifiers (s_c s);
+  lf_height : c_height (s_c s') = c_height (s_c s);
+  lf_remote : w_remote (s_w s') = w_remote (s_w s)
+}.
+
+Lemma mframe_lframe s s' : mframe s s' -> lframe s s'.
+Proof. intros []. constructor; auto. Qed.
+
+Lemma record_do_spec file rp s r s' :
+  CInv (s_c s) -> is_lookup_file file ->
+  record_do leaf_hash node_hash V file rp s = (r, s') ->
+  CInv (s_c s') /\ lframe s s' /\ textend ev_safe s s' /\
+  (forall d, r = ROk d -> auth_record d) /\
+  (r = RErr ESecurity -> has_sec s s' \/ In (file, RErr ESecurity) (c_records (s_c s))) /\
+  r <> RErr EFuelC.
+Proof.
+  intros HI Hfile H. unfold record_do in H.
+  minva H c0 s0 E0. unfold get_client in E0. inversion E0; subst c0 s0; clear E0.
+  destruct (rec_find file (c_records (s_c s))) as [r0|] eqn:Hfind.
+  - apply ret_inv in H as [-> ->]. apply rec_find_in in Hfind.
+    split; [exact HI|]. split; [constructor; reflexivity|]. split; [apply textend_refl|].
+    split; [intros d ->; eapply (ci_records _ HI); eauto|].
+    split; [intros ->; right; exact Hfind|].
+    intros ->. eapply (ci_nofuel _ HI); eauto.
+  - minva H r1 s1 E1. apply record_work_spec in E1 as (HI1 & F1 & T1 & Hok & Hsec & Hnf); auto.
+    minva H c2 s2 E2. unfold get_client in E2. inversion E2; subst c2 s2; clear E2.
+    minva H u s3 E3. unfold set_client in E3. inversion E3; subst s3; clear E3.
+    apply ret_inv in H as [-> ->]. cbn [s_c s_w s_tr].
+    split.
+    { destruct HI1. constructor; cbn; auto.
+      - intros f d [[= <- ->]|Hin]; eauto.
+      - intros f [[= <- ->]|Hin]; [apply Hnf; reflexivity | eapply ci_nofuel0; eauto]. }
+    split; [constructor; cbn; apply F1|].
+    split; [destruct T1 as (evs & ? & ?); exists evs; cbn; auto|].
+    split; [exact Hok|]. split; [|exact Hnf].
+    intros Hr. left. destruct (Hsec Hr) as (evs & ? & ?). exists evs; cbn; auto.
+Qed.
+
+Definition key_ok (w : world) : Prop :=
+  forall k nm h key, assoc (B "key") (w_config w) = Some k ->
+    parse_verifier_key sha (trim_space k) = KOk (nm, h, key) ->
+    nm = name /\ verifier_list str [ {| v_name := nm; v_hash := h; v_id := key |} ] = vs.
+
+Definition Fresh (c : client) : Prop :=
+  c_init c = None /\ c_latest_msg c = [] /\ Codec.tN (c_latest c) = 0 /\ c_records c = [] /\
+  1 <= c_height c <= 30.
+
+Lemma init_work_spec s r s' :
+  Fresh (s_c s) -> key_ok (s_w s) ->
+  init_work sha node_hash V s = (r, s') ->
+  c_init (s_c s') = None /\ w_remote (s_w s') = w_remote (s_w s) /\
+  (c_height (s_c s') = c_height (s_c s) /\ c_records (s_c s') = c_records (s_c s)) /\
+  textend ev_safe s s' /\
+  (r = None -> CInv (s_c s')) /\ (r = Some ESecurity -> has_sec s s') /\ r <> Some EFuelC.
+Proof.
+  intros (Hi & Hm & Hn & Hr & Hh) Hkey H. unfold init_work in H.
+  minva H k s1 E1. apply read_config_spec in E1 as (F1 & T1 & Hk).
+  assert (Hstop : forall e, e <> ESecurity -> e <> EFuelC -> (Some e, s1) = (r, s') ->
+     c_init (s_c s') = None /\ w_remote (s_w s') = w_remote (s_w s) /\
+     (c_height (s_c s') = c_height (s_c s) /\ c_records (s_c s') = c_records (s_c s)) /\
+     textend ev_safe s s' /\ (r = None -> CInv (s_c s')) /\ (r = Some ESecurity -> has_sec s s') /\ r <> Some EFuelC).
+  { intros e H1 H2 [= <- <-]. split; [rewrite (tf_init _ _ F1); exact Hi|].
+    split; [apply (tf_remote _ _ F1)|]. split; [split; [apply (tf_height _ _ F1) | apply (tf_records _ _ F1)]|].
+    split; [apply textend_quiet_safe; exact T1|]. split; [discriminate|]. split; congruence. }
+  destruct k as [vkey|].
+  2: { apply ret_inv in H as [-> ->]. eapply Hstop; [| |reflexivity]; discriminate. }
+  destruct (parse_verifier_key sha (trim_space vkey)) as [[[nm h] key]|e] eqn:Hparse.
+  2: { apply ret_inv in H as [-> ->]. eapply Hstop; [| |reflexivity]; discriminate. }
+  destruct (Hkey _ _ _ _ (eq_sym Hk) Hparse) as [-> Hvs].
+  minva H c1 s2 E2. unfold get_client in E2. inversion E2; subst c1 s2; clear E2.
+  minva H u s3 E3. unfold set_client in E3. inversion E3; subst s3; clear E3.
+  set (s3 := mkState _ _ _) in H.
+  assert (HI3 : CInv (s_c s3)).
+  { unfold s3. cbn. constructor; cbn.
+    - exact Hvs.
+    - reflexivity.
+    - rewrite (tf_height _ _ F1). exact Hh.
+    - left. split; [rewrite (tf_msg _ _ F1); exact Hm|].
+      rewrite (tf_latest _ _ F1), Hn. reflexivity.
+    - rewrite (tf_records _ _ F1), Hr. intros f d [].
+    - rewrite (tf_records _ _ F1), Hr. intros f []. }
+  assert (F3 : c_init (s_c s3) = None /\ w_remote (s_w s3) = w_remote (s_w s) /\
+               (c_height (s_c s3) = c_height (s_c s) /\ c_records (s_c s3) = c_records (s_c s))).
+  { unfold s3; cbn. split; [rewrite (tf_init _ _ F1); exact Hi|].
+    split; [apply (tf_remote _ _ F1) | split; [apply (tf_height _ _ F1) | apply (tf_records _ _ F1)]]. }
+  assert (T3 : textend ev_safe s s3).
+  { apply textend_quiet_safe. destruct T1 as (evs & ? & ?). exists evs. unfold s3; cbn. auto. }
+  destruct F3 as (Fi & Fr & Fh & Frec).
+  minva H d s4 E4. apply read_config_spec in E4 as (F4 & T4 & _).
+  assert (HI4 := tframe_cinv _ _ F4 HI3).
+  destruct d as [data|].
+  2: { apply ret_inv in H as [-> ->]. split; [rewrite (tf_init _ _ F4); exact Fi|].
+       split; [rewrite (tf_remote _ _ F4); exact Fr|].
+       split; [split; [rewrite (tf_height _ _ F4); exact Fh | rewrite (tf_records _ _ F4); exact Frec]|].
+       split; [eapply textend_trans; [exact T3 | apply textend_quiet_safe; exact T4]|].
+       split; [discriminate|]. split; discriminate. }
+  apply merge_latest_spec in H as ((HI5 & F5 & T5 & Hsec5) & Hnf5); [|exact HI4].
+  split; [rewrite (mf_init _ _ F5), (tf_init _ _ F4); exact Fi|].
+  split; [rewrite (mf_remote _ _ F5), (tf_remote _ _ F4); exact Fr|].
+  split; [split; [rewrite (mf_height _ _ F5), (tf_height _ _ F4); exact Fh
+                 | rewrite (mf_records _ _ F5), (tf_records _ _ F4); exact Frec]|].
+  assert (T4' : textend ev_safe s s4) by (eapply textend_trans; [exact T3 | apply textend_quiet_safe; exact T4]).
+  split; [eapply textend_trans; [exact T4' | exact T5]|].
+  split; [intros _; exact HI5|]. split; [|exact Hnf5].
+  intros Hs. eapply has_sec_l; [exact T4' | apply Hsec5; exact Hs].
+Qed.
+
+(* the invariant of a client between lookups *)
+Definition ClientInv (c : client) : Prop :=
+  match c_init c with
+  | None => Fresh c
+  | Some None => CInv c
+  | Some (Some e) => e <> EFuelC
+  end.
+
+Lemma lookup_m_spec path vers s r s' :
+  ClientInv (s_c s) -> (c_init (s_c s) = None -> key_ok (s_w s)) ->
+  lookup_m sha leaf_hash node_hash V esc_path esc_vers skip path vers s = (r, s') ->
+  ClientInv (s_c s') /\ textend ev_safe s s' /\ w_remote (s_w s') = w_remote (s_w s) /\
+  (forall lines, r = LOk lines ->
+     CInv (s_c s') /\ exists d, auth_record d /\ lines = result_lines path vers d) /\
+  (r = LErr ESecurity ->
+     has_sec s s' \/ c_init (s_c s) = Some (Some ESecurity) \/
+     exists f, In (f, RErr ESecurity) (c_records (s_c s))) /\
+  r <> LErr EFuelC.
+Proof.
+  intros HC Hkey H. unfold lookup_m in H.
+  destruct (skip path).
+  { apply ret_inv in H as [-> ->]. split; [exact HC|]. split; [apply textend_refl|]. split; [reflexivity|].
+    split; [discriminate|]. split; discriminate. }
+  minva H e0 s1 E1.
+  (* initialisation *)
+  assert (Hinit : ClientInv (s_c s1) /\ textend ev_safe s s1 /\ w_remote (s_w s1) = w_remote (s_w s) /\
+                  c_init (s_c s1) = Some e0 /\
+                  (e0 = Some ESecurity -> has_sec s s1 \/ c_init (s_c s) = Some (Some ESecurity)) /\
+                  c_records (s_c s1) = c_records (s_c s)).
+  { unfold client_init in E1. minva E1 c0 sa Ea. unfold get_client in Ea. inversion Ea; subst c0 sa; clear Ea.
+    unfold ClientInv in HC. destruct (c_init (s_c s)) as [r0|] eqn:Hci.
+    - apply ret_inv in E1 as [-> ->]. unfold ClientInv. rewrite Hci.
+      split; [exact HC|]. split; [apply textend_refl|]. split; [reflexivity|]. split; [reflexivity|].
+      split; [intros ->; right; reflexivity | reflexivity].
+    - minva E1 r1 sb Eb. apply init_work_spec in Eb as (Hi & Hrm & (Hh & Hrec) & T & Hnone & Hsec & Hnf); auto.
+      minva E1 c2 sc Ec. unfold get_client in Ec. inversion Ec; subst c2 sc; clear Ec.
+      minva E1 u sd Ed. unfold set_client in Ed. inversion Ed; subst sd; clear Ed.
+      apply ret_inv in E1 as [-> ->]. cbn [s_c s_w s_tr]. unfold ClientInv; cbn.
+      split.
+      { destruct r1 as [e|].
+        - intros ->. apply Hnf. reflexivity.
+        - destruct (Hnone eq_refl). constructor; cbn; auto. }
+      split; [destruct T as (evs & ? & ?); exists evs; cbn; auto|].
+      split; [exact Hrm|]. split; [reflexivity|].
+      split; [|exact Hrec].
+      intros ->. left. destruct (Hsec eq_refl) as (evs & ? & ?). exists evs; cbn; auto. }
+  destruct Hinit as (HC1 & T1 & Hrm1 & Hci1 & Hsec1 & Hsame1).
+  destruct e0 as [err|].
+  { apply ret_inv in H as [-> ->]. split; [exact HC1|]. split; [exact T1|]. split; [exact Hrm1|].
+    split; [discriminate|]. split.
+    - intros [= ->]. destruct (Hsec1 eq_refl); auto.
+    - intros [= ->]. unfold ClientInv in HC1. rewrite Hci1 in HC1. apply HC1. reflexivity. }
+  assert (HI1 : CInv (s_c s1)) by (unfold ClientInv in HC1; rewrite Hci1 in HC1; exact HC1).
+  assert (Hstop : forall e, e <> ESecurity -> e <> EFuelC -> (LErr e, s1) = (r, s') ->
+    ClientInv (s_c s') /\ textend ev_safe s s' /\ w_remote (s_w s') = w_remote (s_w s) /\
+    (forall lines, r = LOk lines -> CInv (s_c s') /\ exists d, auth_record d /\ lines = result_lines path vers d) /\
+    (r = LErr ESecurity -> has_sec s s' \/ c_init (s_c s) = Some (Some ESecurity) \/
+       exists f, In (f, RErr ESecurity) (c_records (s_c s))) /\ r <> LErr EFuelC).
+  { intros e H1 H2 [= <- <-]. split; [exact HC1|]. split; [exact T1|]. split; [exact Hrm1|].
+    split; [discriminate|]. split; congruence. }
+  destruct (esc_path path) as [epath|].
+  2: { apply ret_inv in H as [-> ->]. eapply Hstop; [| |reflexivity]; discriminate. }
+  destruct (esc_vers (trim_suffix vers go_mod_suffix)) as [evers|].
+  2: { apply ret_inv in H as [-> ->]. eapply Hstop; [| |reflexivity]; discriminate. }
+  minva H c1 s2 E2. unfold get_client in E2. inversion E2; subst c1 s2; clear E2.
+  minva H rr s3 E3.
+  apply record_do_spec in E3 as (HI3 & F3 & T3 & Hok & Hsec3 & Hnf3); auto.
+  2: { exists epath, evers. rewrite (ci_name _ HI1). reflexivity. }
+  assert (HC3 : ClientInv (s_c s3)).
+  { unfold ClientInv. rewrite (lf_init _ _ F3), Hci1. exact HI3. }
+  assert (T13 : textend ev_safe s s3) by (eapply textend_trans; eauto).
+  assert (Hrm3 : w_remote (s_w s3) = w_remote (s_w s)) by (rewrite (lf_remote _ _ F3); exact Hrm1).
+  destruct rr as [data|err]; apply ret_inv in H as [-> ->].
+  - split; [exact HC3|]. split; [exact T13|]. split; [exact Hrm3|].
+    split; [|split; discriminate].
+    intros lines [= <-]. split; [exact HI3|]. exists data. split; [apply Hok; reflexivity | reflexivity].
+  - split; [exact HC3|]. split; [exact T13|]. split; [exact Hrm3|].
+    split; [discriminate|]. split.
+    + intros [= ->]. destruct (Hsec3 eq_refl) as [Hs|Hin].
+      * left. eapply has_sec_l; [exact T1 | exact Hs].
+      * right. right. rewrite Hsame1 in Hin. eauto.
+    + intros [= ->]. apply Hnf3. reflexivity.
 Qed.
 
 End Safe.
